@@ -171,6 +171,8 @@ func (c *Ctx) Violate(sig, msg string, replay any) {
 	}
 }
 
+func (c *Ctx) Evaluations() int64 { c.mu.Lock(); defer c.mu.Unlock(); return c.p.Evaluations }
+
 func (c *Ctx) NViolations() int { c.mu.Lock(); defer c.mu.Unlock(); return len(c.p.Violations) }
 
 // Expired: the time budget of this run is used up; the check should stop enumerating and call Incomplete.
